@@ -96,6 +96,14 @@ pub fn reset() {
     MADVISE_COUNT.store(0, Ordering::SeqCst);
 }
 
+pub fn mmap_count() -> i64 {
+    MMAP_COUNT.load(Ordering::SeqCst)
+}
+
+pub fn madvise_count() -> i64 {
+    MADVISE_COUNT.load(Ordering::SeqCst)
+}
+
 pub fn take_events() -> Vec<MapEvent> {
     crate::talloc::untracked(|| std::mem::take(&mut state().events))
 }
